@@ -6,8 +6,8 @@ package logic
 // every case is real bytecode run through the real CheckSignature/CheckContract and
 // EvalSignatureFull/EvalContract with an EvalTracer attached.
 //
-//	(a) EVERY byte string of length <= 2 (quick) / <= 3 (thorough, see c31partA for the version
-//	    split) after the version byte, for every version byte 0..LogicVersion+1, both modes,
+//	(a) EVERY byte string of length <= 2 (quick) / <= 3 (thorough: for the newest version in both
+//	    modes and for v1, v4, v8, v13 in signature mode; <= 2 elsewhere) after the version byte, for every version byte 0..LogicVersion+1, both modes,
 //	    args in {none, one maximal arg (4096-byte lsig arg / 2048-byte app arg)}, under the
 //	    consensus parameters that introduced the AVM version and under vFuture.
 //	(b) for every entry of the opcode table (every opcode, and every version at which its
@@ -15,13 +15,14 @@ package logic
 //	    all immediates from a boundary set (0, 1, max, first invalid, truncated/overflowing
 //	    varints, oversized constants) x all operand tuples of the stack-value grid
 //	    {uint 0,1,2^64-1 (+ the two existing application ids 888, 1056); bytes "",1,8,32,64,4095,
-//	    4096 B} at its arity (full product up to arity 3 — thorough: 4 —, reduced grid + star above),
+//	    4096 B} at its arity (full product up to arity 4 — thorough: 5 —, reduced grid + star above),
 //	    plus every single type-incorrect position; in six contexts (plain; constant blocks + four
 //	    extra stack values; inside callsub+proto; inside callsub; after a successful inner payment;
 //	    inside an open inner transaction), both modes, with the largest poolable budget.
 //	(c) all ordered opcode PAIRS (o1;o2) of the newest version over a reduced grid of variants
 //	    (immediate x operand tuple) per opcode, at top level and inside a `callsub`/`proto 2 1`
-//	    frame (carried state: scratch, frames, callsub/retsub, loads/stores, boxes, inner txns).
+//	    frame (thorough: also inside an open inner transaction and after an inner payment);
+//	    carried state: scratch, frames, callsub/retsub, loads/stores, boxes, inner txns.
 //	(d) budget edge: for every opcode variant a backward-branch loop `L: push args; op; pop results;
 //	    b L`, run with the remaining budget at the 1st and 2nd execution of the opcode equal to
 //	    cost-1, cost, cost+1; and the same loop without the pops (stack growth to the limit);
@@ -734,10 +735,11 @@ func c31partA(r *ve.Run) {
 	for v := uint64(0); v <= LogicVersion+1; v++ {
 		for mode := 0; mode < 2; mode++ {
 			// vFuture, no arg: every version. Thorough: length 3 for the newest version (both
-			// modes); every other configuration stays at length 2 (2^24 programs per
-			// configuration at ~40 us of CPU each is what fits the thorough budget).
+			// modes) and, in signature mode, for v1, v4 (back branches), v8 (frames) and v13
+			// (varint branches); every other configuration stays at length 2 (2^24 programs per
+			// configuration, ~100 M programs in total, is what fits the thorough budget).
 			ml := 2
-			if v == LogicVersion {
+			if v == LogicVersion || (mode == c31sig && (v == 1 || v == backBranchEnabledVersion || v == fpVersion || v == varintBranchVersion)) {
 				ml = deepLen
 			}
 			add(v, mode, false, c31future, ml)
@@ -810,7 +812,7 @@ func c31partA(r *ve.Run) {
 	r.Set("a_outcomes", tally.outcomes())
 	r.Set("a_programs", evals.Load())
 	r.Set("a_configurations", len(tasks))
-	r.Set("a_max_len_after_version", fmt.Sprintf("2; %d for the newest version (both modes, vFuture, no arg)", deepLen))
+	r.Set("a_max_len_after_version", fmt.Sprintf("2; %d for the newest version (both modes) and for v1, v4, v8, v13 in signature mode (vFuture, no arg)", deepLen))
 }
 
 func c31uvarint(dst []byte, x uint64) []byte {
@@ -1072,7 +1074,7 @@ func c31tuples(types []avmType) [][]c31val {
 		return [][]c31val{{}}
 	}
 	var out [][]c31val
-	if len(types) <= ve.Pick(3, 4) {
+	if len(types) <= ve.Pick(4, 5) {
 		doms := make([][]c31val, len(types))
 		for i, t := range types {
 			doms[i] = c31grid(t, false)
@@ -1357,8 +1359,14 @@ func c31emit(pb *c31pb, in *c31inst) {
 }
 
 func c31partC(r *ve.Run) {
-	vars := c31variants(ve.Thorough())
+	vars := c31variants(true)
 	nv := len(vars)
+	// contexts: top level, inside callsub+proto; thorough adds (application mode) inside an open
+	// inner transaction and after a successful inner payment
+	ctxs := []int{c31ctxPlain, c31ctxFrame}
+	if ve.Thorough() {
+		ctxs = append(ctxs, c31ctxInInner, c31ctxAfterInner)
+	}
 	tally := &c31tally{m: map[string]int64{}}
 	var evals atomic.Int64
 	// unit = (o1 variant, mode)
@@ -1376,19 +1384,16 @@ func c31partC(r *ve.Run) {
 			if mode == c31sig && !o2.sig {
 				continue
 			}
-			for ctx := 0; ctx < 2; ctx++ {
-				pb := c31pb{version: LogicVersion}
-				if ctx == 1 {
-					// pushint 5; pushbytes "xy"; pushint 1; callsub +1; return; proto 2 1; o1; o2; retsub
-					pb.push(c31val{u: 5})
-					pb.push(c31val{isB: true, b: []byte("xy")})
-					pb.raw(0x88, 0x02, 0x43, 0x8a, 2, 1)
+			for _, ctx := range ctxs {
+				if !c31ctxOK(ctx, LogicVersion, mode) {
+					continue
 				}
+				pb := c31pb{version: LogicVersion}
+				// frame context: pushint 5; pushbytes "xy"; callsub +1; return; proto 2 1; o1; o2; retsub
+				epi := c31prologue(&pb, ctx)
 				c31emit(&pb, o1)
 				c31emit(&pb, o2)
-				if ctx == 1 {
-					pb.raw(0x89)
-				}
+				pb.raw(epi...)
 				res := c31eval("c", k, pb.program(), 0, -1)
 				local[fmt.Sprintf("c|%s|%s|%s", c31modeName[mode], o1.name, c31kindName[res.kind])]++
 				n++
